@@ -94,7 +94,8 @@ func newWorld(p *Program, bv bool) *World {
 		heapSorts: map[string]string{}, heapValSort: map[string]*Sort{}, assumptions: map[string]bool{}, curBlock: -1}
 	w.sortDecls = append(w.sortDecls,
 		"(declare-datatypes ((Slice 0)) (((mk-slice (s-arr Int) (s-off Int) (s-len Int) (s-cap Int)))))",
-		"(declare-datatypes ((Iface 0)) (((mk-iface (i-dyn Int) (i-val Int)))))")
+		"(declare-datatypes ((Iface 0)) (((mk-iface (i-dyn Int) (i-val Int)))))",
+		"(declare-fun is-ptr-dyn (Int) Bool)")
 	return w
 }
 
@@ -282,6 +283,11 @@ func (w *World) typeID(t types.Type) int {
 	}
 	id := len(w.typeIDs) + 1
 	w.typeIDs[k] = id
+	if _, isPtr := t.Underlying().(*types.Pointer); isPtr {
+		// emitted with the declarations (not as a fact): it must be visible to obligations whose
+		// own clause mentions the type first
+		w.funDecls = append(w.funDecls, fmt.Sprintf("(assert (is-ptr-dyn %d))", id))
+	}
 	return id
 }
 
